@@ -6,7 +6,7 @@ cd /repo || exit 3
 if ! git diff --quiet; then echo "REPO DIRTY, refusing"; exit 3; fi
 git apply "$patch" || { echo "patch does not apply"; exit 3; }
 cd /verif
-./check "$prop" "$@" 2>&1 | grep -v "^  class=" | tail -6
+VERIF_NO_EVIDENCE=1 ./check "$prop" "$@" 2>&1 | grep -v "^  class=" | tail -6
 rc=${PIPESTATUS[0]}
 git -C /repo checkout -- .
 echo "mutant run exit=$rc"
